@@ -448,16 +448,57 @@ func kindCIPostLoop(c *Ctx, it Item) (string, error) {
 	if len(loops) != 1 {
 		return "", fmt.Errorf("cipostloop %s: expected exactly one range loop at top level, got %d", it.Str("func"), len(loops))
 	}
+	// what the loop ranges over and what each pass addresses (audit C21: `range addrs[:1]` must not pass)
+	var params []string
+	for _, f := range fd.Type.Params.List {
+		for _, n := range f.Names {
+			params = append(params, n.Name)
+		}
+	}
+	ranges := exprText(p.Fset, loops[0].X)
+	if len(params) > 0 && ranges == params[0] {
+		ranges = "param0"
+	}
+	elem := ""
+	if loops[0].Value != nil {
+		elem = ciIdent(loops[0].Value)
+	}
+	if loops[0].Key != nil && ciIdent(loops[0].Key) != "_" {
+		ranges = "keyed:" + ranges
+	}
+	target, passes := "", false
 	perPass, exits, appends, format := 0, 0, false, ""
 	ast.Inspect(loops[0].Body, func(n ast.Node) bool {
 		switch x := n.(type) {
+		case *ast.AssignStmt:
+			// the loop variable (or anything the endpoint is built from) must not be reassigned inside the pass
+			for _, l := range x.Lhs {
+				if id := ciIdent(l); id != "" && (id == elem || (len(params) > 0 && id == params[0])) {
+					exits++
+				}
+			}
 		case *ast.CallExpr:
 			if calleeName(x.Fun) == "POSTV1" {
 				perPass++
+				if len(x.Args) == 0 || ciIdent(x.Args[0]) != "endpoint" {
+					exits++ // the request does not go to the endpoint built in this pass
+				}
 			}
 			if exprText(p.Fset, x.Fun) == "fmt.Sprintf" && len(x.Args) > 0 {
 				if s, ok := ciStrLit(x.Args[0]); ok && strings.HasPrefix(s, "http") {
 					format = s
+					if len(x.Args) == 4 {
+						t := exprText(p.Fset, x.Args[1])
+						switch {
+						case elem != "" && t == elem:
+							target = "elem"
+						case elem != "" && t == elem+".HTTPAddress()":
+							target = "elem.HTTPAddress()"
+						default:
+							target = t
+						}
+						passes = len(params) == 3 && ciIdent(x.Args[2]) == params[1] && ciIdent(x.Args[3]) == params[2]
+					}
 				}
 			}
 		case *ast.BranchStmt, *ast.ReturnStmt, *ast.GoStmt, *ast.DeferStmt:
@@ -495,8 +536,8 @@ func kindCIPostLoop(c *Ctx, it Item) (string, error) {
 		}
 		return "false"
 	}
-	return fmt.Sprintf("def %s : Nsq.Model.AdminProg.PostLoop := ⟨%d, %d, %s, %s, %s⟩\n",
-		it.Str("name"), perPass, exits, b(appends), b(returns), leanStr(format)), nil
+	return fmt.Sprintf("def %s : Nsq.Model.AdminProg.PostLoop := ⟨%d, %d, %s, %s, %s, %s, %s, %s⟩\n",
+		it.Str("name"), perPass, exits, b(appends), b(returns), leanStr(format), leanStr(ranges), leanStr(target), b(passes)), nil
 }
 
 func kindCIFallback(c *Ctx, it Item) (string, error) {
